@@ -541,6 +541,7 @@ Utf8IterOK(e) ==
     IF e.ok
     THEN /\ Utf8Valid(e.s)
          /\ e.fwd = Utf8Decode(e.s)
+         /\ e.cur = e.fwd                      \* current() after every step
          /\ e.pos = Tail(CharStarts(e.s))
          /\ e.bwd = Reverse(Utf8Decode(e.s))
          /\ e.bpos = Reverse(SubSeq(CharStarts(e.s), 1, Len(CharStarts(e.s)) - 1))
